@@ -55,6 +55,7 @@ fn all_entries(class: &str, data: &[u8], model: Option<&str>, tr: &mut TraceOut,
         tr.ev(e);
     };
     res.case(fnv(data) ^ fnv(class.as_bytes()), !data.is_empty());
+    progress(|| format!("decode entry points on class {} ({} bytes): {:?}", class, data.len(), &data[..data.len().min(96)]));
     ev("decode_digital_radar_data", measured(|| decode_digital_radar_data(&mut Cursor::new(data)).and_then(|m| { let a = m.radial(); let b = m.clone().into_radial(); let _ = (a.is_ok(), b.is_ok()); Ok::<_, nexrad_decode::result::Error>(()) })), true);
     ev("decode_messages", measured(|| decode_messages(&mut Cursor::new(data)).map(|ms| { for m in &ms { if let MessageContents::DigitalRadarData(d) = m.contents() { let _ = d.radial().is_ok(); } } ms.len() })), false);
     ev("decode_message_header", measured(|| decode_message_header(&mut &data[..])), false);
@@ -73,7 +74,6 @@ fn all_entries(class: &str, data: &[u8], model: Option<&str>, tr: &mut TraceOut,
 
 pub fn run(args: &Args) {
     if args.mode != "record" { eprintln!("total: only record"); std::process::exit(2); }
-    watchdog(2400);
     let l = Layouts::load();
     let mut rng = Rng::new(args.seed);
     let mut tr = TraceOut::create(args.out.as_deref().unwrap_or(""));
